@@ -273,7 +273,7 @@ absout_harness!(c01_step_retained_write, 8, { step_body(g::K_RET, 0, true, false
 // @harness assumes="transport contract: write never returns Ok(0) for a non-empty buffer; a pending write/flush has accepted nothing (cancel-safe I/O)"
 absout_harness!(c01_step_retained_write_wpend, 8, { step_body(g::K_RET, 0, true, true, false) });
 
-// @harness props=C01,C13,C11,C16,C10,C02,C15 quick_props=C13,C01 tier=quick layer=L3c unwind=8 heavy=1
+// @harness props=C01,C13,C11,C16,C10,C02,C15 quick_props=C13 tier=quick layer=L3c unwind=8 heavy=1
 // @harness funcs="Connection::perform_outbound_step (Retained), write_current, flush_current, complete_flush, set_written, handle_disconnect; RuntimeState::note_outbound_activity (real coroutines)"
 // @harness sym="written offset, every arena byte, clock, per write: error / accepted 1..=n bytes; per flush: error / ok; after each Pending: drop (cancel) or re-poll" bounds="one step on a 4-byte retained packet; write phase, flush pending once (cancel point after accepted bytes); <= 3 polls; keep-alive 60 s"
 // @harness assumes="transport contract: write never returns Ok(0) for a non-empty buffer; a pending write/flush has accepted nothing (cancel-safe I/O)"
@@ -442,7 +442,7 @@ absout_harness!(c14_replay_respects_limit, 8, {
 // ---------------------------------------------------------------------------------------------
 // A3: write_all / write_packet (direct writers: progress is recorded nowhere)
 // ---------------------------------------------------------------------------------------------
-// @harness props=C13,C01,C15 quick_props=C13,C15,C01 tier=quick layer=L3c heavy=1
+// @harness props=C13,C01,C15 quick_props=C13,C15 tier=quick layer=L3c heavy=1
 // @harness funcs="outbound::write_all (real coroutine)"
 // @harness sym="4 bytes, per write pending/error/accepted k, drop or re-poll" bounds="4-byte buffer, <= 6 polls"
 // @harness assumes="transport contract as c01_step_retained"
